@@ -131,6 +131,26 @@ def dotted(node: ast.AST) -> Optional[str]:
     return None
 
 
+def presence_test(cond: ast.AST, outcome: bool = True) -> Optional[Tuple[str, bool]]:
+    """(text of X, X is present) for the atomic tests `X`, `not X`, `X is None`, `X is not None`, `X == None`, `X != None`,
+    `bool(X)` taken with the given outcome; None for anything else.  'present' = truthy for the bare form, not-None for the
+    identity forms -- callers use it for Optional objects, where the two coincide."""
+    if isinstance(cond, ast.UnaryOp) and isinstance(cond.op, ast.Not):
+        r = presence_test(cond.operand, outcome)
+        return (r[0], not r[1]) if r else None
+    if isinstance(cond, ast.Compare) and len(cond.ops) == 1 and isinstance(cond.comparators[0], ast.Constant) and cond.comparators[0].value is None:
+        if isinstance(cond.ops[0], (ast.Is, ast.Eq)):
+            return norm(cond.left), not outcome
+        if isinstance(cond.ops[0], (ast.IsNot, ast.NotEq)):
+            return norm(cond.left), outcome
+        return None
+    if isinstance(cond, ast.Call) and dotted(cond.func) == "bool" and len(cond.args) == 1:
+        return norm(cond.args[0]), outcome
+    if isinstance(cond, (ast.Name, ast.Attribute, ast.Subscript)):
+        return norm(cond), outcome
+    return None
+
+
 def call_name(call: ast.Call) -> Optional[str]:
     return dotted(call.func)
 
@@ -151,6 +171,10 @@ class Module:
             self.tree = ast.parse(self.src, filename=str(path))
         except SyntaxError as e:  # pragma: no cover
             raise AnalysisError(f"{path}: syntax error: {e}")
+        from .canon import canonicalise
+
+        if not os.environ.get("SA_NO_CANON"):
+            canonicalise(self.tree)  # equivalent spellings -> one form (sa/canon.py)
         set_parents(self.tree)
         self.imports: Dict[str, str] = {}  # local name -> dotted origin
         for n in ast.walk(self.tree):
